@@ -35,7 +35,7 @@ CursorResizes(t) == {<<c, r>> \in {<<1, 1>>, <<2, 3>>, <<3, 2>>, <<3, 3>>} : <<c
 
 \* ------------------------------------------------------------- C04: printing
 PrintAlphabet(t) ==
-     {F1("Print", c) : c \in {97, 113, 233}}                 \* 'a', 'q' (in the drawing range), e-acute
+     {F1("Print", c) : c \in {97, 113, 233, 12385}}          \* 'a', 'q' (in the drawing range), e-acute, U+3061 (low byte in the drawing range)
   \cup {FS("Decset", <<7>>), FS("Decrst", <<7>>), FS("Sm", <<4>>), FS("Rm", <<4>>),
         F0("So"), F0("Si"), F1("Gzd4", 1), F1("Gzd4", 0), F1("G1d4", 1), F0("Cr"), F0("Lf"), F0("Bs")}
   \cup {F1("Rep", n) : n \in {0, 2, t.cols, t.cols + 1, 2 * t.cols + 1}}
@@ -85,7 +85,8 @@ EditAlphabet(t) ==
   \cup {F2("Cup", a, b) : a \in 1..t.rows, b \in {1, t.cols}}
   \cup {F1("Print", 121), FS("Sgr", <<<<48, 3>>>>), FS("Sgr", <<<<0, 0>>>>)}
 EditSizes == {<<1, 1>>, <<2, 2>>, <<3, 2>>, <<4, 2>>, <<3, 3>>}
-EditFills == {<<>>, <<65, 65, 65, 65, 65, 66, 66>>}       \* a soft-wrapped row on narrow screens
+EditFills == {<<>>, <<65, 65, 65, 65, 65, 66, 66>>,       \* a soft-wrapped row on narrow screens
+              <<28450, 98, 28450, 99>>}                 \* double-width characters (U+6F22) in the first and the last column of 3 columns
 
 \* ------------------------------------------------------------- C08: SGR
 SgrOpsSmall == {<<0, 0>>, <<1, 0>>, <<2, 0>>, <<22, 0>>, <<3, 0>>, <<23, 0>>, <<5, 0>>, <<25, 0>>, <<7, 0>>, <<27, 0>>,
@@ -159,7 +160,7 @@ CtxWrapResizes(t) == {}
 \* ------------------------------------------------------------- all pairs of functions from interesting states
 (* One representative of EVERY Function (two where a parameter selects a different path), every ordered pair of  *)
 (* them (depth 2), from each of a handful of prepared states: content with a soft-wrapped row and scrollback,    *)
-(* plus one of: nothing; origin mode + region; the alternate screen; insert mode + auto-wrap off + new-line      *)
+(* plus one of: nothing; origin mode + region; a pending wrap left behind by switching auto-wrap off; the alternate screen; insert mode + auto-wrap off + new-line      *)
 (* mode; a pending wrap with a coloured pen; a saved context taken in origin mode; a region that stops short of  *)
 (* the last row with the cursor below it.  The lean family models go deeper on one mechanism each; this one is    *)
 (* the safety net across mechanisms.                                                                              *)
@@ -171,7 +172,8 @@ PairsPreludes ==
     <<27, 91, 52, 104, 27, 91, 63, 55, 108, 27, 91, 50, 48, 104>>,             \* CSI 4h  CSI ?7l  CSI 20h
     <<27, 91, 52, 49, 109, 27, 91, 50, 59, 57, 57, 72, 122>>,                  \* CSI 41m  CSI 2;99H z   (wrap pending)
     <<27, 91, 63, 54, 104, 27, 91, 50, 59, 50, 72, 27, 55, 27, 91, 63, 54, 108>>,   \* CSI ?6h CSI 2;2H ESC 7 CSI ?6l
-    <<27, 91, 49, 59, 50, 114, 27, 91, 57, 57, 59, 50, 72>> }                  \* CSI 1;2 r  CSI 99;2H   (below the region)
+    <<27, 91, 49, 59, 50, 114, 27, 91, 57, 57, 59, 50, 72>>,                   \* CSI 1;2 r  CSI 99;2H   (below the region)
+    <<27, 91, 50, 59, 57, 57, 72, 122, 27, 91, 63, 55, 108>> }                 \* CSI 2;99H z  CSI ?7l   (wrap pending, then auto-wrap off)
 PairsFills == {PairsContent \o p : p \in PairsPreludes}
 PairsAlphabet(t) ==
      {F0(f) : f \in {"Bs", "Ht", "Lf", "Cr", "So", "Nel", "Hts", "Ri", "Decsc", "Decrc", "Ris", "Decaln", "Scosc", "Scorc", "Decstr"}}
@@ -185,6 +187,21 @@ PairsSizes == {<<3, 4>>, <<9, 2>>}
 PairsSizesT == {<<3, 4>>, <<9, 2>>, <<2, 3>>, <<4, 5>>}
 PairsResizes(t) == {<<t.cols + 1, t.rows>>, <<t.cols, t.rows + 1>>} \cup {<<c, r>> \in {<<t.cols - 1, t.rows>>, <<t.cols, t.rows - 1>>} : c >= 1 /\ r >= 1}
 Lim1 == {1}
+
+\* ------------------------------------------------------------- whole calls: several functions in ONE feed_str
+(* Every PATH (VIEW McViewPath) of up to MaxDepth functions that scroll, insert / delete rows, erase several rows,  *)
+(* move across the margins or print, from three prepared states on a 3x4 screen (a region at the top with the       *)
+(* cursor below it; a region in the middle in origin mode; no region).  Each path is replayed call by call AND as   *)
+(* a single call: the changed-line report, the handed-out scrollback and the trim must be right for the call as a   *)
+(* whole (C15, C13, C14, C12), whatever internal bookkeeping the functions share.                                   *)
+BatchAlphabet(t) ==
+  {F1("Su", 1), F1("Sd", 1), F1("Il", 1), F1("Dl", 1), F1("Ed", 0), F1("Ed", 1), F0("Lf"), F0("Ri"),
+   F2("Cup", 1, 1), F2("Cup", 3, 1), F2("Cup", t.rows, 1), F1("Print", 97)}
+BatchFills ==
+  { PairsContent \o <<27, 91, 49, 59, 50, 114, 27, 91, 57, 57, 59, 50, 72>>,       \* CSI 1;2 r  CSI 99;2H
+    PairsContent \o <<27, 91, 50, 59, 51, 114, 27, 91, 63, 54, 104>>,              \* CSI 2;3 r  CSI ?6h
+    PairsContent }
+BatchSizes == {<<3, 4>>}
 
 \* ------------------------------------------------------------- C11: dump / restore
 DumpAlphabet(t) ==
